@@ -95,8 +95,11 @@ __CPROVER_ensures(OLD((*item_ref)->refcount) > 1 ? *item_ref == OLD(*item_ref) :
    ((it)->type != CBOR_TYPE_TAG || TG_META(it).tagged_item == NULL) &&                           \
    (!IS_CHUNKED(it) || (CHUNKS(it)->chunk_count == 0 && CHUNKS(it)->chunks == NULL)))
 void cbor_decref__childless(cbor_item_t **item_ref)
-__CPROVER_requires(ALLOC_MODEL_BOUND && __CPROVER_rw_ok(item_ref, sizeof(cbor_item_t *)) && ITEM_RW(*item_ref) &&
-                   (*item_ref)->refcount == 1 && HEAP_BLOCK(*item_ref) && DATA_FREEABLE(*item_ref) && CHILDLESS(*item_ref))
+__CPROVER_requires(ALLOC_MODEL_BOUND)
+__CPROVER_requires(__CPROVER_rw_ok(item_ref, sizeof(cbor_item_t *)) && ITEM_RW(*item_ref))
+__CPROVER_requires((*item_ref)->refcount == 1 && HEAP_BLOCK(*item_ref))
+__CPROVER_requires(DATA_FREEABLE(*item_ref))
+__CPROVER_requires(CHILDLESS(*item_ref))
 __CPROVER_assigns(ALLOC_GHOSTS, *item_ref)
 __CPROVER_frees(*item_ref)
 __CPROVER_frees(HAS_DATA_BLOCK(*item_ref) : (*item_ref)->data)
